@@ -175,7 +175,7 @@ def run(ctx):
         pwc = "none" if case.pw is None else "empty" if case.pw == 0 else "set"
         # read it back: same password, a different one, none
         reads = []
-        has_enc = any(b[0] == "enc" for _, _, b in members)
+        has_enc = bool(case.pw) and any(n in dict(case.secrets) for n in names)     # by the inputs, not by the outcome
         for pw2 in (case.pw, (case.pw or 0) % 3 + 1 if case.pw else 2, None):
             enc, _ = S.real_read(case, data, pw2)
             reads.append((pw2, enc))
